@@ -1605,6 +1605,12 @@ class Exec:
                 return r
         if isinstance(node.op, ast.UAdd) and v.ty.is_num:
             return v
+        if isinstance(node.op, ast.Invert):
+            from . import lib
+
+            r = lib.unary_hook(self, node.op, v)
+            if r is not None:
+                return r
         raise Unsupported(f"unary {type(node.op).__name__} on {v.ty}")
 
     def num(self, v: SV):
@@ -1839,6 +1845,8 @@ class Exec:
             right = self.eval(cn)
             parts.append(self.compare(op, left, right))
             left = right
+        if len(parts) == 1 and isinstance(parts[0], SV):
+            return parts[0]  # elementwise comparison of a library vector: not a Python bool
         # all operands are evaluated eagerly: assumption "comparison operands are pure"
         return sv_bool(z3.And(parts) if len(parts) > 1 else parts[0])
 
@@ -1852,6 +1860,8 @@ class Exec:
                 x = self.eval(v.value)
                 if x.ty.kind == "str" and v.conversion == -1 and v.format_spec is None:
                     pieces.append(S.un_str(x.t))
+                elif x.t is None or not (z3.is_expr(x.t) and x.t.sort() == S.Val):
+                    pieces.append(self.fresh("fmt", S.STR))  # formatted library value: some string
                 else:
                     pieces.append(S.str_of(x.t))
         if not pieces:
